@@ -31,6 +31,61 @@ CFB_ONESHOT_FRAME(sm4_cfb_encrypt);
 CFB_ONESHOT_FRAME(sm4_cfb_decrypt);
 #endif
 
+/* ---- one-shot CFB-s (GB/T 17964 / NIST SP 800-38A 6.3) against the recorded history of block-cipher calls ----
+ * Segment k (k = G_fe_sel, chosen by the harness), segment size s = sbytes, I_k = input block of the k-th sm4_encrypt call,
+ * O_k its output:   I_0 = IV;   out-segment_k = in-segment_k xor MSB_len(O_k);   I_{k+1} = LSB_{16-s}(I_k) || C_k
+ * where C_k is the CIPHERTEXT segment: the produced bytes when encrypting, the bytes `in` held ON ENTRY when decrypting
+ * (so that decrypting in place, out == in, is held to the same bytes).  After the last full segment iv holds I_{k+1}.
+ * Ghost byte positions: verif_gk in the segment, G_fe_j2 in I_{k+1}, G_fe_j3 in I_k (== G_fe_j2 + s when that is < 16);
+ * G_mc (index of the memcpy contract in libc.h) is G_fe_j2's position inside the refilled part, G_fe_j2 + s - 16. */
+#ifdef CONTRACT_CFB_ONESHOT
+#ifdef VERIF_CBMC
+unsigned G_fe_calls, G_fe_sel; size_t G_fe_nseg, G_fe_j2, G_fe_j3; uint8_t G_fe_A, G_fe_B, G_fe_out; size_t G_fe_key;
+#ifndef G_ZERO_BYTE_DEFINED
+#define G_ZERO_BYTE_DEFINED
+const uint8_t G_zero_byte = 0;
+#endif
+#define CFB_LEN(k, s, inlen) (((size_t)(k) + 1) * (s) <= (inlen) ? (s) : (inlen) - (size_t)(k) * (s))
+#define CFB_IN_SEG(k, s, inlen, j) ((size_t)(k) < G_fe_nseg && (j) < CFB_LEN(k, s, inlen))
+#endif
+void sm4_encrypt(const SM4_KEY *key, const uint8_t in[16], uint8_t out[16])
+REQUIRES(RD_OK(key, sizeof(SM4_KEY)) && RD_OK(in, 16) && WR_OK(out, 16) && verif_gk < 16 && G_fe_j2 < 16 && G_fe_j3 < 16)
+ASSIGNS(OBJ_UPTO(out, 16), G_fe_calls, G_fe_A, G_fe_B, G_fe_out, G_fe_key)
+ENSURES(G_fe_calls == OLD(G_fe_calls) + 1 && G_fe_key == (size_t)key)
+ENSURES(OLD(G_fe_calls) == G_fe_sel ? (G_fe_A == OLD(in[G_fe_j3 < 16 ? G_fe_j3 : 0]) && G_fe_out == out[verif_gk]) : (G_fe_A == OLD(G_fe_A) && G_fe_out == OLD(G_fe_out)))
+ENSURES(OLD(G_fe_calls) == G_fe_sel + 1 ? G_fe_B == OLD(in[G_fe_j2 < 16 ? G_fe_j2 : 0]) : G_fe_B == OLD(G_fe_B))
+;
+void gmssl_memxor(void *r, const void *a, const void *b, size_t len)
+REQUIRES(len == 0 || (WR_OK(r, len) && RD_OK(a, len) && RD_OK(b, len) && (r == a || SEPARATE(r, a)) && (r == b || SEPARATE(r, b))))
+ASSIGNS(len != 0: OBJ_UPTO((uint8_t *)r, len))
+ENSURES(verif_gk < len IMPLIES ((const uint8_t *)r)[verif_gk] == (uint8_t)(OLD(((const uint8_t *)a)[verif_gk < len ? verif_gk : 0]) ^ OLD(((const uint8_t *)b)[verif_gk < len ? verif_gk : 0])))
+;
+#define CFB_ONESHOT_REQ \
+REQUIRES(RD_OK(key, sizeof(SM4_KEY)) && sbytes >= 1 && sbytes <= 16 && RW_OK(iv, 16) && inlen <= 48) \
+REQUIRES(inlen == 0 || (RD_OK(in, inlen) && WR_OK(out, inlen) && (out == in || SEPARATE(in, out)) && SEPARATE(iv, in) && SEPARATE(iv, out))) \
+REQUIRES(G_fe_calls == 0 && verif_gk < 16 && G_fe_j2 < 16 && G_fe_j3 < 16 && (G_fe_j2 + sbytes < 16 ? G_fe_j3 == G_fe_j2 + sbytes : G_mc == G_fe_j2 + sbytes - 16)) \
+REQUIRES(G_fe_nseg <= 48 && G_fe_sel <= 48 && (G_fe_nseg == 0 ? inlen == 0 : ((G_fe_nseg - 1) * sbytes < inlen && inlen <= G_fe_nseg * sbytes))) \
+ASSIGNS(OBJ_UPTO(iv, 16); inlen != 0: OBJ_UPTO(out, inlen); G_fe_calls, G_fe_A, G_fe_B, G_fe_out, G_fe_key) \
+ENSURES(G_fe_calls == G_fe_nseg && (G_fe_nseg > 0 IMPLIES G_fe_key == (size_t)key)) \
+ENSURES(CFB_IN_SEG(G_fe_sel, sbytes, inlen, verif_gk) IMPLIES out[(size_t)G_fe_sel * sbytes + verif_gk] == (uint8_t)(G_fe_out ^ \
+	OLD(*(CFB_IN_SEG(G_fe_sel, sbytes, inlen, verif_gk) ? in + ((size_t)G_fe_sel * sbytes + verif_gk) : &G_zero_byte)))) \
+ENSURES((G_fe_sel == 0 && G_fe_nseg > 0) IMPLIES G_fe_A == OLD(iv[G_fe_j3 < 16 ? G_fe_j3 : 0]))
+/* the shift register after segment k: next block-cipher input, or the iv handed back after the last full segment */
+#define CFB_NEXT(ct) (G_fe_j2 + sbytes < 16 ? G_fe_A : (ct))
+#define CFB_CT_IDX ((size_t)G_fe_sel * sbytes + (G_fe_j2 + sbytes - 16))
+#define CFB_FULL_K ((size_t)G_fe_sel < G_fe_nseg && ((size_t)G_fe_sel + 1) * sbytes <= inlen)
+void sm4_cfb_encrypt(const SM4_KEY *key, size_t sbytes, uint8_t iv[16], const uint8_t *in, size_t inlen, uint8_t *out)
+CFB_ONESHOT_REQ
+ENSURES(((size_t)G_fe_sel + 1 < G_fe_nseg) IMPLIES G_fe_B == CFB_NEXT(out[G_fe_j2 + sbytes >= 16 ? CFB_CT_IDX : 0]))
+ENSURES((CFB_FULL_K && (size_t)G_fe_sel + 1 == G_fe_nseg) IMPLIES iv[G_fe_j2] == CFB_NEXT(out[G_fe_j2 + sbytes >= 16 ? CFB_CT_IDX : 0]))
+;
+void sm4_cfb_decrypt(const SM4_KEY *key, size_t sbytes, uint8_t iv[16], const uint8_t *in, size_t inlen, uint8_t *out)
+CFB_ONESHOT_REQ
+ENSURES(((size_t)G_fe_sel + 1 < G_fe_nseg) IMPLIES G_fe_B == CFB_NEXT(OLD(*((CFB_FULL_K && G_fe_j2 + sbytes >= 16) ? in + CFB_CT_IDX : &G_zero_byte))))
+ENSURES((CFB_FULL_K && (size_t)G_fe_sel + 1 == G_fe_nseg) IMPLIES iv[G_fe_j2] == CFB_NEXT(OLD(*((CFB_FULL_K && G_fe_j2 + sbytes >= 16) ? in + CFB_CT_IDX : &G_zero_byte))))
+;
+#endif
+
 #define CFB_UPDATE_CONTRACT(fn) \
 int fn(SM4_CFB_CTX *ctx, const uint8_t *in, size_t inlen, uint8_t *out, size_t *outlen) \
 REQUIRES(CFB_CTX_OK(ctx) && inlen <= 65536 && RD_OK(in, inlen ? inlen : 1) && WR_OK(outlen, sizeof(size_t))) \
